@@ -1639,8 +1639,30 @@ func (c *Component) restoreFromHASync(srgName string) {
 			restorePolicy = defaultMSSClampPolicyForMTU(restorePPPMTU)
 		}
 
+		// The id was allocated by the HA peer from its own counter, while this node
+		// may already serve sessions of other SRGs from ids it handed out itself.
+		// sidIndex holds one session per id: never let a synced session displace a
+		// live one (it would become unreachable by id while staying alive), and never
+		// accept the reserved id 0. The CPE keeps using the id it was given, so the
+		// session cannot be renumbered; it is dropped and the CPE re-dials.
+		// sidMu is held until the session is indexed so that a concurrent PADR
+		// neither gets this id nor races on nextSessionID.
+		c.sidMu.Lock()
+		c.sessionMu.RLock()
+		_, sidInUse := c.sidIndex[pppoeSessionID]
+		c.sessionMu.RUnlock()
+		if pppoeSessionID == 0 || sidInUse {
+			c.sidMu.Unlock()
+			c.logger.Error("Synced PPPoE session dropped: session id is not usable on this node",
+				"session_id", cp.SessionId, "pppoe_sid", pppoeSessionID, "in_use", sidInUse)
+			c.opdb.Delete(c.Ctx, opdb.NamespaceHASyncedPPPoE, cp.SessionId)
+			failed++
+			continue
+		}
+
 		swIfIndex, err := c.vpp.AddPPPoESession(pppoeSessionID, ipv4, mac, localMAC, encapIfIndex, outerVLAN, innerVLAN, decapVrfID, restorePPPMTU, restorePolicy)
 		if err != nil {
+			c.sidMu.Unlock()
 			c.logger.Error("Failed to create PPPoE session from HA sync",
 				"session_id", cp.SessionId, "error", err)
 			failed++
@@ -1721,6 +1743,7 @@ func (c *Component) restoreFromHASync(srgName string) {
 			c.nextSessionID = pppoeSessionID + 1
 		}
 		c.sessionMu.Unlock()
+		c.sidMu.Unlock()
 
 		c.restoreSessionToCache(c.Ctx, sess, now)
 		c.checkpointSession(sess)
